@@ -264,6 +264,12 @@ def configs(tier):
            (scale_core, dict(n_asm=2)), (scale_core, dict(n_asm=3, user_total=False)),
            (scale_core, dict(n_asm=3, empty=True)), (scale_core, dict(n_asm=2, scaled=False)),
            (init_scale, dict())]
+    if tier == 'thorough':
+        out += [(integrate, dict(n_reg=3, n_terms=4)),
+                (sweep_total, dict(cells=[2, 2, 1], n_terms=2, bundle=(1, 4))),
+                (sweep_total, dict(cells=[1, 1, 1, 1], n_terms=2, bundle=(1, 3), which=('pins', 'duct'))),
+                (sweep_total, dict(cells=[2, 2], n_terms=3, bundle=(1, 3))),
+                (scale_core, dict(n_asm=4, empty=True, user_total=False))]
     return out
 
 
